@@ -41,7 +41,7 @@ package position
 //@ func NewBuilder
 //@   ensures result != nil && fresh(result) && result.pool != nil && len(result.pool.block) >= 1 && poolwf(result.pool)
 //@   modifies nothing
-//@   props C05, C01
+//@   props C05, C01, C18
 
 // A builder function needs non-nil tokens with positions (the grammar passes terminals and tokens
 // the lexer has positioned); it returns a fresh position. Which boundary fills which field is
